@@ -264,8 +264,6 @@ where
 
         if self.result.as_mut().unwrap().is_bin {
             if self.col == 0 {
-                self.result.as_mut().unwrap().writer.write_u8(0x00)?;
-
                 // leave space for nullmap
                 self.data.resize(self.bitmap_len, 0);
             }
@@ -313,11 +311,11 @@ where
         }
 
         if self.result.as_mut().unwrap().is_bin {
-            self.result
-                .as_mut()
-                .unwrap()
-                .writer
-                .write_all(&self.data[..])?;
+            // the row's header byte is only written once the whole row is known to be good,
+            // so that a refused value leaves nothing behind in the packet buffer
+            let writer = &mut self.result.as_mut().unwrap().writer;
+            writer.write_u8(0x00)?;
+            writer.write_all(&self.data[..])?;
             self.data.clear();
         }
         self.result.as_mut().unwrap().writer.end_packet()?;
